@@ -4,6 +4,8 @@ import (
 	"bytes"
 	"encoding/hex"
 	"fmt"
+	"hash/fnv"
+	"net"
 	"net/netip"
 	"os"
 	"sort"
@@ -44,6 +46,8 @@ var (
 // netfilter 192.168.0.0/30), so that the two subnets share their network address.
 func setLayout(i int) {
 	switch i {
+	case 2: // the default of dhcp4.New when no netfilter prefix is configured: same prefix length as the home LAN
+		dHost, dRouter, dNetf = netip.MustParseAddr("192.168.0.6"), netip.MustParseAddr("192.168.0.1"), netip.MustParsePrefix("192.168.0.6/29")
 	case 1:
 		dHost, dRouter, dNetf = netip.MustParseAddr("192.168.0.2"), netip.MustParseAddr("192.168.0.5"), netip.MustParsePrefix("192.168.0.2/30")
 	default:
@@ -104,8 +108,9 @@ func dhcpAlphabet() []dEvent {
 // ---- observer (built from the replies only) ----
 
 type dAck struct {
-	ip     netip.Addr
-	expiry int64
+	ip       netip.Addr
+	expiry   int64
+	captured bool // capture state of the client when the address was acknowledged
 }
 
 type dObserver struct {
@@ -171,6 +176,7 @@ type dhcpOpts struct {
 type dhcpStep struct {
 	replies []string
 	snap    string
+	frames  uint64 // hash of every frame emitted during the step, in order (replies, forced declines, discover bursts)
 }
 
 type dhcpResult struct {
@@ -425,10 +431,31 @@ func runDHCP(alpha []dEvent, hist []int, o dhcpOpts) *dhcpResult {
 			// ---- observe the replies of this step
 			step := dhcpStep{}
 			now := vsched.NowNanos()
+			fh := fnv.New64a()
 			for _, f := range conn.Take() {
+				fh.Write(f.Data)
+				fh.Write([]byte{0xff, 0x00})
+				step.frames = fh.Sum64()
 				info := refnet.DecodeSent(f.Data, env.HostMAC)
 				for _, p := range info.Problems {
 					fail("frame", "sent-"+info.Kind+"-"+firstWords(p, 3), fmt.Sprintf("emitted %s frame: %s", info.Kind, p))
+				}
+				// C07: a DECLINE/RELEASE forced towards the real server carries the fields of the client it is sent for
+				if info.Kind == "dhcp4" && info.DHCP != nil && info.DHCP.Op == 1 && info.DstPort == 67 && (info.DHCP.MsgType == 4 || info.DHCP.MsgType == 7) && reqK >= 0 {
+					d := info.DHCP
+					wantID := dClients[reqK]
+					if reqK == 2 {
+						wantID = dCID3
+					}
+					x := uint32(d.XID[0])<<24 | uint32(d.XID[1])<<16 | uint32(d.XID[2])<<8 | uint32(d.XID[3])
+					switch {
+					case !bytes.Equal(d.CHAddr, dClients[reqK]):
+						fail("frame", "decline-chaddr", fmt.Sprintf("forced DECLINE/RELEASE carries chaddr %x, the client it is sent for is %x", d.CHAddr, dClients[reqK]))
+					case x != reqXID:
+						fail("frame", "decline-xid", fmt.Sprintf("forced DECLINE/RELEASE carries xid %x, the client's message had %x", x, reqXID))
+					case d.Options[61] != nil && !bytes.Equal(d.Options[61], wantID):
+						fail("frame", "decline-clientid", fmt.Sprintf("forced DECLINE/RELEASE carries client id %x, the client's is %x", d.Options[61], wantID))
+					}
 				}
 				if os.Getenv("VERIF_DEBUG") != "" && (info.DHCP == nil || !bytes.HasPrefix(info.DHCP.CHAddr, []byte{0xff, 0xee})) {
 					fmt.Fprintf(os.Stderr, "  sent kind=%s sport=%d dport=%d problems=%v dhcp=%+v\n", info.Kind, info.SrcPort, info.DstPort, info.Problems, info.DHCP)
@@ -457,7 +484,15 @@ func runDHCP(alpha []dEvent, hist []int, o dhcpOpts) *dhcpResult {
 				// ---- C11: uniqueness and reserved addresses
 				for y, ya := range obs.acks {
 					if y != k && ya.ip == a {
-						fail("unique", strings.ToLower(kind)+"-of-acknowledged-address", fmt.Sprintf("%s of %v to c%d while it is still acknowledged to c%d", kind, a, k+1, y+1))
+						sig := strings.ToLower(kind) + "-of-acknowledged-address"
+						note := ""
+						if s.IsCaptured(dClients[y]) != ya.captured {
+							// the owner was moved to the other subnet (captured / released, or its capture flag was lost with
+							// its purged session entry) after the acknowledgement
+							sig += ":owner-changed-subnet"
+							note = fmt.Sprintf(" (c%d was captured=%v when it was acknowledged and is captured=%v now)", y+1, ya.captured, !ya.captured)
+						}
+						fail("unique", sig, fmt.Sprintf("%s of %v to c%d while it is still acknowledged to c%d%s", kind, a, k+1, y+1, note))
 					}
 				}
 				subnet := dHome
@@ -482,7 +517,7 @@ func runDHCP(alpha []dEvent, hist []int, o dhcpOpts) *dhcpResult {
 				// ---- C12: segregation and transaction conformance
 				wantRouter, wantDNS, wantMask := dRouter, dDNS, []byte{255, 255, 255, 248}
 				if captured {
-					wantRouter, wantDNS, wantMask = dHost, dFamDNS, []byte{255, 255, 255, 252}
+					wantRouter, wantDNS, wantMask = dHost, dFamDNS, []byte(net.CIDRMask(dNetf.Bits(), 32))
 				}
 				opt := d.Options
 				if !bytes.Equal(opt[3], wantRouter.AsSlice()) {
@@ -523,7 +558,7 @@ func runDHCP(alpha []dEvent, hist []int, o dhcpOpts) *dhcpResult {
 					if len(opt[51]) == 4 {
 						lt = uint32(opt[51][0])<<24 | uint32(opt[51][1])<<16 | uint32(opt[51][2])<<8 | uint32(opt[51][3])
 					}
-					obs.acks[k] = dAck{ip: a, expiry: now + int64(lt)*int64(time.Second)}
+					obs.acks[k] = dAck{ip: a, expiry: now + int64(lt)*int64(time.Second), captured: captured}
 					obs.lease[k] = obs.acks[k]
 					delete(obs.maybe, k)
 					delete(obs.offer, k)
@@ -642,6 +677,7 @@ func dhcpSeeds(alpha []dEvent) [][]int {
 		{d1, find("tick", 0, ""), find("discover", 1, "other"), r2}, // same, after the first client's offer ran out
 		{d1, r1, tick2h, tickMin},                                   // a bound client that was silent for two hours: the session has purged its host entry
 		{d1, r1, tick2h, find("request", 0, "renew")},               // a lease renewed half way through its life time
+		{find("capture", 0, ""), d1, r1, tick2h, tickMin},           // a captured client bound in the netfilter subnet whose session entry was purged
 	}
 }
 
@@ -656,7 +692,7 @@ func layoutsAndModes(modes []dhcp4.Mode) []layoutMode {
 	for i, m := range modes {
 		l = append(l, layoutMode{0, m})
 		if i == 0 {
-			l = append(l, layoutMode{1, m})
+			l = append(l, layoutMode{1, m}, layoutMode{2, m})
 		}
 	}
 	return l
@@ -677,7 +713,7 @@ func dhcpExplore(c *core.Ctx, class string) {
 	alpha := dhcpAlphabet()
 	for _, lm := range layoutsAndModes(modes) {
 		mode := lm.mode
-		o := dhcpOpts{mode: mode, layout: lm.layout}
+		o := dhcpOpts{mode: mode, layout: lm.layout, poison: class == "frame"}
 		setLayout(o.layout)
 		ex := &eseq.Explorer{NEvents: len(alpha), Depth: depth, Shard: c.Shard, NShards: c.NShards, Seeds: dhcpSeeds(alpha)}
 		if c.Deadline > 0 {
@@ -702,6 +738,10 @@ func dhcpExplore(c *core.Ctx, class string) {
 				for i := range r.steps {
 					if i < len(r2.steps) && (strings.Join(r.steps[i].replies, ";") != strings.Join(r2.steps[i].replies, ";") || r.steps[i].snap != r2.steps[i].snap) {
 						sr.Violations = append(sr.Violations, fmt.Sprintf("alias|retained-alias|step %d: private buffers {%v %s} reused buffer {%v %s}", i+1, r.steps[i].replies, r.steps[i].snap, r2.steps[i].replies, r2.steps[i].snap))
+						break
+					}
+					if i < len(r2.steps) && r.steps[i].frames != r2.steps[i].frames {
+						sr.Violations = append(sr.Violations, fmt.Sprintf("alias|emitted-frames|step %d: the frames emitted with a reused (scribbled) receive buffer differ from those emitted with private buffers (replies %v)", i+1, r.steps[i].replies))
 						break
 					}
 				}
@@ -742,7 +782,7 @@ func dhcpExplore(c *core.Ctx, class string) {
 			c.Cap(ex.CapHit)
 		}
 	}
-	c.Res.Bound = fmt.Sprintf("depth %d from the initial state and from %d scripted non-initial states; alphabet of %d events; %d operating mode(s); 2 address plans for the first mode", depth, len(dhcpSeeds(alpha)), len(alpha), len(modes))
+	c.Res.Bound = fmt.Sprintf("depth %d from the initial state and from %d scripted non-initial states; alphabet of %d events; %d operating mode(s); 3 address plans for the first mode", depth, len(dhcpSeeds(alpha)), len(alpha), len(modes))
 	var names []string
 	for _, e := range alpha {
 		names = append(names, e.String())
@@ -753,7 +793,7 @@ func dhcpExplore(c *core.Ctx, class string) {
 
 func dhcpAssumptions() []string {
 	return []string{
-		"deliberately small pools, two address plans: home LAN 192.168.0.0/29 with (router .1, this host .6, netfilter subnet 192.168.0.4/30) and with (router .5, this host .2, netfilter subnet 192.168.0.0/30, sharing the network address of the home LAN); three clients (c3 identifies itself with a client-id option); lease time 4h",
+		"deliberately small pools, three address plans: home LAN 192.168.0.0/29 with (router .1, this host .6, netfilter subnet 192.168.0.4/30) and with (router .5, this host .2, netfilter subnet 192.168.0.0/30, sharing the network address of the home LAN) and with (router .1, this host .6, netfilter prefix /29 = the home LAN itself, the default when no netfilter prefix is configured); three clients (c3 identifies itself with a client-id option); lease time 4h",
 		"the lease observer is built from the replies only: an acknowledgement ends by DECLINE/RELEASE from its owner, a NAK, a later ACK of another address, or expiry in virtual time",
 		"real handler + real session under the sequential scheduler with virtual time; the lease file lives on an in-memory device that logs every operation",
 		"crash model: process crash - operations take effect in program order, a crash can fall between any two operations or tear a write at any byte; loss or reordering of completed but unsynced writes (power failure) is not modelled",
@@ -766,7 +806,7 @@ func dhcpReplayer(data []byte) string {
 		return ""
 	}
 	alpha := dhcpAlphabet()
-	o := dhcpOpts{mode: dhcp4.Mode(r.Mode), layout: r.Layout}
+	o := dhcpOpts{mode: dhcp4.Mode(r.Mode), layout: r.Layout, poison: r.Class == "frame"}
 	res := runDHCP(alpha, r.Hist, o)
 	if os.Getenv("VERIF_DEBUG") != "" {
 		for i, st := range res.steps {
@@ -797,6 +837,9 @@ func dhcpReplayer(data []byte) string {
 		for i := range res.steps {
 			if i < len(r2.steps) && (strings.Join(res.steps[i].replies, ";") != strings.Join(r2.steps[i].replies, ";") || res.steps[i].snap != r2.steps[i].snap) {
 				return "alias|retained-alias"
+			}
+			if i < len(r2.steps) && res.steps[i].frames != r2.steps[i].frames {
+				return "alias|emitted-frames"
 			}
 		}
 	}
